@@ -96,6 +96,11 @@ KeysV(o) == cap > 0 /\ UNCHANGED vars /\ Ret(o, order)
 ValuesV(o) == /\ cap > 0 /\ UNCHANGED <<cap, val>> /\ order' \in Perms(Present) /\ Ret(o, ValsIn(order))
 ItemsV(o) == /\ cap > 0 /\ UNCHANGED <<cap, val>> /\ order' \in Perms(Present)
              /\ Ret(o, [i \in 1..2*Len(order) |-> IF i % 2 = 1 THEN order[(i+1) \div 2] ELSE val[order[i \div 2]]])
+\* an iteration during which another entry is looked up at every step (what values() / items() / == do with the current
+\* key, a caller may do with any key): it terminates and lists every key once; lookups do not change the content, and the
+\* recency order afterwards is left open
+SortedKeys == LET n == Cardinality(Present) IN [i \in 1..n |-> CHOOSE k \in Present : Cardinality({x \in Present : x < k}) = i - 1]
+IterTouch(o) == /\ cap > 0 /\ UNCHANGED <<cap, val>> /\ order' \in Perms(Present) /\ Ret(o, SortedKeys)
 \* == against a dict given as pairs: 1 iff same key set and same values
 EqV(o) == /\ cap > 0 /\ UNCHANGED <<cap, val>> /\ order' \in Perms(Present)
           /\ LET ks == {o.ps[i][1] : i \in DOMAIN o.ps}
@@ -121,6 +126,7 @@ Apply(o) ==
     \/ o.op = "values" /\ ValuesV(o)
     \/ o.op = "items" /\ ItemsV(o)
     \/ o.op = "eq" /\ EqV(o)
+    \/ o.op = "iter_touch" /\ IterTouch(o)
 
 \* --- bounded operation universe for exhaustive checking ---------------------------------------
 DefaultVal == 99
@@ -140,6 +146,7 @@ Next ==
     \/ Apply([op |-> "iter"]) \/ Apply([op |-> "keys"]) \/ Apply([op |-> "values"]) \/ Apply([op |-> "items"])
     \/ \E ps \in PairSeqs : Apply([op |-> "update", ps |-> ps])
     \/ \E ps \in EqArgs : Apply([op |-> "eq", ps |-> ps])
+    \/ \E k \in Keys : Apply([op |-> "iter_touch", k |-> k])
 
 Spec == Init /\ [][Next]_<<vars, last>>
 
